@@ -138,6 +138,21 @@ func (h histSpec) String() string {
 	}
 	for g, l := range h.ops {
 		fmt.Fprintf(&b, " g%d:", g)
+		if len(l) > 16 {
+			// long list: run-length form, e.g. a256 c1 a44
+			for i := 0; i < len(l); {
+				j := i
+				for j < len(l) && l[j] == l[i] {
+					j++
+				}
+				fmt.Fprintf(&b, "%s%d", l[i].String()[:1], j-i)
+				if j < len(l) {
+					b.WriteByte(' ')
+				}
+				i = j
+			}
+			continue
+		}
 		for i, k := range l {
 			if h.mode == "gated" && g == 0 && i == h.pre {
 				b.WriteString("[gap]")
@@ -220,9 +235,10 @@ type gateCtl struct {
 func TestCheck(t *testing.T) {
 	r := vf.Start(t, "C31", vf.Exploration)
 	defer r.Finish()
-	r.SetRule("Part 1: PRNG histories of 2-4 goroutines with <= 6 accept/close calls on ONE fresh SolicitMountedStream value wrapping a harness stream that counts Close calls; three schedule families: free-running from a barrier, yielding (Gosched) at the verif hook point inside AcceptMountedStream, and gate-controlled (one accept is parked at the hook point while all other goroutines run to completion, then released). Call/return are stamped from one atomic counter; porcupine decides linearizability against the model {open, accepted, closed}: accept: open->accepted returns the stream, accepted->(nil,true,nil), closed->error and no stream; close: open->closed returns true, accepted->false, closed->any. Four schedule families now: the three above plus CLOSE-GATED (one Close call of the value is parked inside the underlying stream's Close - a slow close - while the other goroutines run, then released). In half of the histories the underlying stream is FAULTY: its Close returns an error (always / on the first call only / on repeated calls only / iff the remote end was closed before, which the harness then does first) or yields the processor several times (slow, with and without error); the stream end is closed by the call whatever it returns. The model is unchanged except that the RESULT of a Close call that found the value open is not judged when the stream is faulty (the property text does not say what Close reports when the stream's own Close fails): the value is closed by that call and no later accept may return the stream. Also: a stream that was returned by an accept has Close count 0. Non-trivial = history containing both an accept and a close on >= 2 goroutines; distinct = distinct (spec, observed interleaving). Part 2: two-node harness (see C30) with several local directives of equal (protocol id, context) and different constraints; all values of a node are accepted / closed concurrently; per physical stream successful accepts <= 1 and an accepted stream has Close count 0. A block of REJECT scenarios (own batches): one node holds 2-3 requests with the same (protocol id, context) and different link-admitting constraints, the other node solicits the pair, and one of the matching resolvers rejects the value or goes away around the match, in seven patterns: every consumer accepts INSIDE the delivering AddValue call and then closes its siblings' bus instances (directive.Instance.Close, or Reference.Release + CloseIfUnreferenced) so that controllerbus answers the controller's next AddValue of the same match with ok=false; only one consumer does that; one request is registered with the controller directly (Controller.HandleDirective + Resolver.Resolve) with a harness directive.ResolverHandler that rejects every value, or has a hard cap of one value over two links; one bus request is closed by the harness at the moment the solicited stream is handed to its node's controller (synchronously, or from a free-running goroutine); static and dynamic (remote request last, after a quiescence). In every third generated scenario and every fourth reject scenario both ends of every solicited stream are FAULTY in the same six ways, and the accept / close plan of those scenarios has more closes, including Close calls that have RETURNED before the accept of the same value is called (one goroutine). Oracle for all two-node scenarios: per physical stream at most one successful accept over all values and consumers of the node (accepts inside the delivery included), a stream that some accept returned has Close count 0 at its node's end at the end, and the Close count read when an accept returns a stream is 0 (a closed stream is never handed over). Non-trivial = scenario where at least one stream matches >= 2 local directives")
+	r.SetRule("Part 1: PRNG histories of 2-4 goroutines with <= 6 accept/close calls on ONE fresh SolicitMountedStream value wrapping a harness stream that counts Close calls; three schedule families: free-running from a barrier, yielding (Gosched) at the verif hook point inside AcceptMountedStream, and gate-controlled (one accept is parked at the hook point while all other goroutines run to completion, then released). Call/return are stamped from one atomic counter; porcupine decides linearizability against the model {open, accepted, closed}: accept: open->accepted returns the stream, accepted->(nil,true,nil), closed->error and no stream; close: open->closed returns true, accepted->false, closed->any. Four schedule families now: the three above plus CLOSE-GATED (one Close call of the value is parked inside the underlying stream's Close - a slow close - while the other goroutines run, then released). In half of the histories the underlying stream is FAULTY: its Close returns an error (always / on the first call only / on repeated calls only / iff the remote end was closed before, which the harness then does first) or yields the processor several times (slow, with and without error); the stream end is closed by the call whatever it returns. The model is unchanged except that the RESULT of a Close call that found the value open is not judged when the stream is faulty (the property text does not say what Close reports when the stream's own Close fails): the value is closed by that call and no later accept may return the stream. Also: a stream that was returned by an accept has Close count 0. Non-trivial = history containing both an accept and a close on >= 2 goroutines; distinct = distinct (spec, observed interleaving). LONG histories (own block): one goroutine makes 300..1100 calls one after the other on ONE value, mostly accepts (a polling caller / many matching solicitations claiming the value one by one), closes interleaved at varying points - none; one close after exactly b accepts for b in {1,2,64,127..129,255..258,300,511..513,600}; closes after every multiple of 256 accepts; 1-5 closes at PRNG positions; a close first or right after the first accept and again after 256..258 accepts - in half of them a second goroutine makes 1-3 free-running calls, a quarter on faulty streams; same sequential model, same oracle (porcupine), the number of accept calls beyond the 256th on one value is in the evidence. Part 2: two-node harness (see C30) with several local directives of equal (protocol id, context) and different constraints; all values of a node are accepted / closed concurrently; per physical stream successful accepts <= 1 and an accepted stream has Close count 0. A block of REJECT scenarios (own batches): one node holds 2-3 requests with the same (protocol id, context) and different link-admitting constraints, the other node solicits the pair, and one of the matching resolvers rejects the value or goes away around the match, in seven patterns: every consumer accepts INSIDE the delivering AddValue call and then closes its siblings' bus instances (directive.Instance.Close, or Reference.Release + CloseIfUnreferenced) so that controllerbus answers the controller's next AddValue of the same match with ok=false; only one consumer does that; one request is registered with the controller directly (Controller.HandleDirective + Resolver.Resolve) with a harness directive.ResolverHandler that rejects every value, or has a hard cap of one value over two links; one bus request is closed by the harness at the moment the solicited stream is handed to its node's controller (synchronously, or from a free-running goroutine); static and dynamic (remote request last, after a quiescence). In every third generated scenario and every fourth reject scenario both ends of every solicited stream are FAULTY in the same six ways, and the accept / close plan of those scenarios has more closes, including Close calls that have RETURNED before the accept of the same value is called (one goroutine). Oracle for all two-node scenarios: per physical stream at most one successful accept over all values and consumers of the node (accepts inside the delivery included), a stream that some accept returned has Close count 0 at its node's end at the end, and the Close count read when an accept returns a stream is 0 (a closed stream is never handed over). Non-trivial = scenario where at least one stream matches >= 2 local directives")
 
 	part1(r)
+	partLong(r)
 	g10sol.RunTwoNodeC31(r)
 }
 
@@ -300,6 +316,135 @@ func part1(r *vf.Run) {
 		evalHistory(r, spec, ops, closes, i < 3)
 	}
 	r.Extra("hook_hits_"+hookName, verifhook.Hits(hookName)-hits0)
+}
+
+// longBoundaries are the numbers of accept calls after which a long history
+// places a close (or ends): the powers of two where a narrow call counter wraps,
+// and their neighbours.
+var longBoundaries = []int{255, 256, 257, 258, 300, 511, 512, 513, 127, 128, 129, 64, 1, 2, 600}
+
+// genLongSpec builds LONG history k on one value: goroutine 0 makes 300..1100
+// calls one after the other, mostly accepts (a caller polling the value, or many
+// matching solicitations claiming it one by one), with closes interleaved at
+// varying points: none at all; one close after exactly b accepts for b of
+// longBoundaries; a few closes at PRNG positions; a close first (all later
+// accepts find the value closed). In half of the histories a second goroutine
+// makes 1-3 free-running calls of its own.
+func genLongSpec(rng *rand.Rand, k int) histSpec {
+	h := histSpec{mode: "long"}
+	total := 300 + rng.IntN(400)
+	if k%5 == 4 {
+		total = 700 + rng.IntN(400)
+	}
+	closeAfter := map[int]bool{} // number of accepts made so far -> close here
+	switch k % 6 {
+	case 0: // accepts only
+	case 1, 2: // one close after exactly b accepts
+		closeAfter[longBoundaries[(k/6+k%6*7)%len(longBoundaries)]] = true
+	case 3: // closes at every multiple of 256 (and once of 128)
+		closeAfter[256], closeAfter[512], closeAfter[768], closeAfter[1024] = true, true, true, true
+		if rng.IntN(2) == 0 {
+			closeAfter[128] = true
+		}
+	case 4: // a few closes at PRNG positions
+		for c := 1 + rng.IntN(5); c > 0; c-- {
+			closeAfter[1+rng.IntN(total)] = true
+		}
+	default: // close first, or right after the first accept, then a long tail
+		closeAfter[rng.IntN(2)] = true
+		if rng.IntN(2) == 0 {
+			closeAfter[256+rng.IntN(3)] = true
+		}
+	}
+	var l []opKind
+	for acc := 0; acc <= total; acc++ {
+		if closeAfter[acc] {
+			l = append(l, opClose)
+		}
+		if acc < total {
+			l = append(l, opAccept)
+		}
+	}
+	h.ops = [][]opKind{l}
+	if rng.IntN(2) == 0 {
+		var o []opKind
+		for c := 1 + rng.IntN(3); c > 0; c-- {
+			if rng.IntN(2) == 0 {
+				o = append(o, opClose)
+			} else {
+				o = append(o, opAccept)
+			}
+		}
+		h.ops = append(h.ops, o)
+	}
+	return h
+}
+
+// partLong: long single-value histories (see genLongSpec); same sequential
+// model, same oracle.
+func partLong(r *vf.Run) {
+	rng := r.Rand("c31-long-hist")
+	n := r.N(120, 4000)
+	verifhook.SetPoint(hookName, nil)
+	t0 := time.Now() // evidence only
+	defer func() { r.Extra("long_history_phase_s", time.Since(t0).Seconds()) }()
+	for i := 0; i < n; i++ {
+		spec := genLongSpec(rng, i)
+		if rng.IntN(25) == 0 {
+			spec.erred = true
+		}
+		if rng.IntN(4) == 0 {
+			spec.fault = 1 + rng.IntN(g10sol.NumCloseFaults-1)
+			spec.remoteGone = spec.fault == g10sol.CloseErrRemoteGone
+		}
+		if i%16 == 0 {
+			r.Begin(fmt.Sprintf("long history %d: %s", i, spec))
+		}
+		ops, closes, inconclusive := runHistory(spec, nil)
+		if inconclusive != "" {
+			r.Inconclusive(inconclusive + " :: " + spec.String())
+			r.Case("h|"+spec.String(), false)
+			continue
+		}
+		maxAcc := 0
+		for _, l := range spec.ops {
+			a := 0
+			for _, k := range l {
+				if k == opAccept {
+					a++
+				}
+			}
+			maxAcc = max(maxAcc, a)
+		}
+		r.Count("long_histories_accept_calls_beyond_the_256th_on_one_value", max(0, maxAcc-256))
+		if len(spec.ops) > 1 {
+			r.Count("long_histories_with_a_second_goroutine", 1)
+		}
+		evalHistory(r, spec, ops, closes, i == 1)
+	}
+}
+
+// compressTokens writes a token list, collapsing consecutive repetitions of a
+// two-token pattern: (g0:a( g0:)already)x254.
+func compressTokens(tok []string) string {
+	var b strings.Builder
+	for i := 0; i < len(tok); {
+		if i+1 < len(tok) {
+			reps := 1
+			for i+2*reps+1 < len(tok) && tok[i+2*reps] == tok[i] && tok[i+2*reps+1] == tok[i+1] {
+				reps++
+			}
+			if reps >= 3 {
+				fmt.Fprintf(&b, "(%s %s)x%d ", tok[i], tok[i+1], reps)
+				i += 2 * reps
+				continue
+			}
+		}
+		b.WriteString(tok[i])
+		b.WriteByte(' ')
+		i++
+	}
+	return b.String()
 }
 
 // runHistory executes one history on a fresh value.
@@ -472,6 +617,9 @@ func evalHistory(r *vf.Run, spec histSpec, ops []porcupine.Operation, closes int
 	inter := sb.String()
 	concurrent := false
 	for i := range ops {
+		if len(ops) > 100 && ops[i].ClientId == 0 {
+			continue // long history: goroutine 0 holds the long list; compare the others against all
+		}
 		for j := range ops {
 			if i != j && ops[i].ClientId != ops[j].ClientId && ops[i].Call < ops[j].Return && ops[j].Call < ops[i].Return {
 				concurrent = true
@@ -492,7 +640,15 @@ func evalHistory(r *vf.Run, spec histSpec, ops []porcupine.Operation, closes int
 		r.Count("histories_with_overlapping_calls", 1)
 	}
 	if sample {
-		r.Sample(map[string]any{"kind": "history", "spec": spec.String(), "observed": inter, "stream_close_calls": closes})
+		obs := inter
+		if len(evs) > 64 {
+			tok := make([]string, len(evs))
+			for i, e := range evs {
+				tok[i] = e.s
+			}
+			obs = compressTokens(tok)
+		}
+		r.Sample(map[string]any{"kind": "history", "spec": spec.String(), "observed": obs, "stream_close_calls": closes})
 	}
 
 	init := stOpen
@@ -507,7 +663,15 @@ func evalHistory(r *vf.Run, spec histSpec, ops []porcupine.Operation, closes int
 		}
 	}
 	res, _ := porcupine.CheckOperationsVerbose(model(init, faulty), ops, 20*time.Second)
-	wit := map[string]any{"spec": spec.String(), "observed_call_return_order": inter, "stream_close_calls": closes, "underlying_stream_close_behaviour": g10sol.CloseFaultNames[spec.fault]}
+	shown := inter
+	if len(evs) > 64 {
+		tok := make([]string, len(evs))
+		for i, e := range evs {
+			tok[i] = e.s
+		}
+		shown = compressTokens(tok)
+	}
+	wit := map[string]any{"spec": spec.String(), "observed_call_return_order": shown, "stream_close_calls": closes, "underlying_stream_close_behaviour": g10sol.CloseFaultNames[spec.fault]}
 	switch res {
 	case porcupine.Unknown:
 		r.Inconclusive("porcupine timed out :: " + spec.String())
@@ -522,6 +686,9 @@ func evalHistory(r *vf.Run, spec histSpec, ops []porcupine.Operation, closes int
 			cls = "close-results"
 		case streams == 1 && nClose > 0 && closes > 0 && faulty:
 			cls = "stream-returned-after-close-call/stream-close-failed"
+		}
+		if spec.mode == "long" {
+			cls += "/long-history"
 		}
 		r.Violation("history/not-linearizable/"+cls,
 			"concurrent accept/close calls on one solicitation value have no sequential explanation: a closed value returned the stream to an accepting caller, or a stream got two owners",
